@@ -107,9 +107,11 @@ type elStep struct {
 	Cut  string
 }
 
-func mkLine(id int, n int) string {
-	// The first characters identify the line, so that lines of the same id
-	// collide once they are cut to a short limit.
+func mkLine(id int, n int, unit string) string {
+	// The first character identifies the line, so that lines of the same id
+	// collide once they are cut to a short limit. The rest repeats a unit that
+	// may be a multi-byte character (or an invalid byte), cut to n BYTES - the
+	// limits of the event log are byte limits.
 	s := fmt.Sprintf("%c", 'a'+id)
 	if n == 0 {
 		return ""
@@ -117,7 +119,10 @@ func mkLine(id int, n int) string {
 	if n <= len(s) {
 		return s[:n]
 	}
-	return s + strings.Repeat(fmt.Sprintf("%d", id%10), n-len(s))
+	if unit == "" {
+		unit = fmt.Sprintf("%d", id%10)
+	}
+	return (s + strings.Repeat(unit, (n-len(s))/len(unit)+1))[:n]
 }
 
 func TestC18EventLog(t *testing.T) {
@@ -220,6 +225,11 @@ func TestC18EventLog(t *testing.T) {
 		}
 
 		nLines := rapid.IntRange(2, 8).Draw(t, "nLines")
+		// filler of the lines: ASCII digits, 2-, 3- and 4-byte characters, a lone continuation byte
+		unit := rapid.SampledFrom([]string{"", "", "\u00e9", "\u20ac", "\U0001F600", "\x80", "a\u20ac"}).Draw(t, "unit")
+		if unit != "" {
+			ev.Label("c18:multibyte-lines")
+		}
 		steps := map[string]func(*rapid.T){
 			"printf": func(t *rapid.T) {
 				id := rapid.IntRange(0, nLines-1).Draw(t, "id")
@@ -235,7 +245,7 @@ func TestC18EventLog(t *testing.T) {
 				default:
 					n = rapid.IntRange(0, 2*maxLine).Draw(t, "len")
 				}
-				line := mkLine(id, n)
+				line := mkLine(id, n, unit)
 				hist = append(hist, elStep{Op: "printf", Line: fmt.Sprintf("id%d/len%d", id, n)})
 				key, stored, evicted, fresh, amb := m.printf(line)
 				if amb {
